@@ -36,7 +36,9 @@ AllowList(s) == [kind |-> "list", names |-> s]
 \* "7797compact"/"7797json": the RFC 7797 entry points with "b64": false; "..._plain" / "..._true": the same entry points given
 \* an ordinary token (no b64 member) or "b64": true - they hand over to the RFC 7515 code and must carry the caller's list along
 JwsSer == {"compact", "flattened", "general", "7797compact", "7797json", "jwt", "7797compact_plain", "7797json_plain", "7797compact_true"}
-JweSer == {"compact", "flattened", "general", "jwt"}
+\* general_any: General JSON with a second recipient of another, listed algorithm that opens the token, consumed with a registry
+\* that is content with any recipient - a name the caller did not allow on the first recipient must still make the call fail
+JweSer == {"compact", "flattened", "general", "jwt", "general_any"}
 
 \* ------------------------------------------------------------------ layer D
 SupportedAt(side, pos, r) ==
